@@ -3,7 +3,7 @@
 From Coq Require Import ZArith List Bool String Lia.
 From FpyV Require Import Num.RealFloat Num.Float Num.CtxDef Lang.Syntax Lang.Values Lang.Sem Lang.SemMono.
 From FpyV Require Import Lang.Transforms.SimpDefs Lang.Transforms.SimpRw Lang.Transforms.SimpBaseProofs
-  Lang.Transforms.SimpEqProofs Lang.Transforms.SimpEvalProofs Lang.Transforms.SimpVexprProofs.
+  Lang.Transforms.SimpEqProofs Lang.Transforms.SimpEvalProofs Lang.Transforms.SimpVexprProofs Lang.Transforms.SimpRunProofs.
 Import ListNotations.
 Open Scope Z_scope.
 
@@ -15,7 +15,6 @@ Variable claim_ok : claim -> bool.
 Variable guess_ctx : facts -> expr -> option ctx.
 Hypothesis HK1 : (1 <= K)%nat.
 
-Definition ctx_ok (oc : option ctx) (C : ctx) : Prop := match oc with Some c => C = c | None => True end.
 
 (* the meaning of an accepted claim: under the literal facts and the known
    context, the expression evaluates to the very value of the literal and
